@@ -402,3 +402,51 @@ Theorem C01_source_iter : forall p, Good p ->
   src_call MIter [] p = (Ok (VToks (pm_iterkeys p)), p).
 Proof. exact (source_iter 2). Qed.
 Print Assumptions C01_source_iter.
+
+(* methods that build a new object or a plain dict: __getstate__/__setstate__ (pickle, copy.copy, deepcopy),
+   copy, inverted, counts, sorted, todict.  [new_from l] is `self.__class__(l)`: the model's constructor from
+   pairs, TypeError when a key is unhashable *)
+From Boltons Require Import Proofs.C01_SrcEq5.
+Theorem C01_source_getstate : forall p, Good p -> src_call MGetState [] p = (Ok (VPairs (pm_items p)), p).
+Proof. exact (source_getstate 1). Qed.
+Print Assumptions C01_source_getstate.
+Theorem C01_source_setstate : forall p l, Good p ->
+  src_call MSetState [VArg (APairs l)] p = (Ok (VTok none_tok), p_add_all (mkPomd [] h_clear [] (pnxt p)) l).
+Proof. exact (source_setstate 0). Qed.
+Print Assumptions C01_source_setstate.
+Theorem C01_source_copy : forall p, Good p -> src_call MCopy [] p = (new_from (pm_items p), p).
+Proof. exact (source_copy 1). Qed.
+Print Assumptions C01_source_copy.
+Theorem C01_source_inverted : forall p, Good p ->
+  src_call MInverted [] p = (new_from (map swap_kv (pm_items p)), p).
+Proof. exact (source_inverted 1). Qed.
+Print Assumptions C01_source_inverted.
+Theorem C01_source_sorted : forall p f rv, Good p ->
+  src_call MSorted [VKeyFn f; VBool rv] p = (new_from (py_sorted (kf_item f) rv (pm_items p)), p).
+Proof. exact (source_sorted 1). Qed.
+Print Assumptions C01_source_sorted.
+Theorem C01_source_counts : forall p, Good p ->
+  src_call MCounts [] p
+  = (match map_res (fun k => match d_get (pstore p) k with
+                             | None => Raise KeyError
+                             | Some vs => Ok (k, length vs)
+                             end) (pm_iterkeys p) with
+     | Ok l => new_from l
+     | Raise e => Raise e
+     end, p).
+Proof. exact (source_counts 1). Qed.
+Print Assumptions C01_source_counts.
+Theorem C01_source_todict : forall p multi, Good p ->
+  src_call MToDict [VBool multi] p
+  = (if multi then Ok (VMulti (map (fun k => (k, pm_getlist p k)) (pm_iterkeys p)))
+     else match map_res (fun k => do v <- pm_getitem p k; Ok (k, v)) (pm_iterkeys p) with
+          | Ok l => Ok (VPairs l)
+          | Raise e => Raise e
+          end, p).
+Proof. exact (source_todict 1). Qed.
+Print Assumptions C01_source_todict.
+
+(* the default values of the parameters in the current source are the ones the model assumes *)
+Theorem C01_source_defaults : gen_defaults = expected_defaults.
+Proof. reflexivity. Qed.
+Print Assumptions C01_source_defaults.
